@@ -1,4 +1,4 @@
-"""C02: cost volume == configured measure, NaN exactly where not computable (SAD / SSD / census, subpix 1)."""
+"""C02: cost volume == configured measure, NaN exactly where not computable (SAD / SSD / census, subpix 1, 2, 4)."""
 MOD = 'vf.harness.c02'
 KF = 'KF-C02-interval-beyond-image-width'
 
@@ -31,6 +31,15 @@ def main(ctx):
     if KF in ctx.known_ids:
         for kw in (dict(masks=False, W=4, H=3, dmin=2, dmax=6), dict(method='census', masks=False, H=3, W=5, dmin=-4, dmax=0)):
             J.append({'mod': MOD, 'fn': 'cost_volume', 'mode': 'sym', 'args': dict(kw, cap=60, block=[KF], known_config=True)})
+    # sub-pixel precision: costs against the linearly interpolated right image
+    cap = 120 if ctx.quick else 600
+    sub = [dict(method='sad', subpix=2), dict(method='census', subpix=2), dict(method='ssd', subpix=2, H=3, W=4, dmin=0, dmax=1),
+           dict(method='sad', subpix=4, W=6, dmin=-2, dmax=1), dict(method='sad', subpix=2, ws=1, H=1, W=5)]
+    if not ctx.quick:
+        sub += [dict(method='census', subpix=4, W=6, dmin=-1, dmax=1), dict(method='ssd', subpix=4, H=3, W=5, dmin=-1, dmax=0), dict(method='sad', subpix=4, ws=5, H=5, W=7, dmin=-1, dmax=1),
+                dict(method='sad', subpix=2, H=4, W=7, dmin=-3, dmax=3)]
+    for kw in sub:
+        J.append({'mod': MOD, 'fn': 'subpix_volume', 'mode': 'sym', 'args': dict(kw, cap=cap)})
     cexs = []
     for r in ctx.run_jobs(J, timeout=1200 if ctx.quick else 5400):
         cexs += ctx.absorb(r)
@@ -40,8 +49,9 @@ def main(ctx):
                               'strided window sums and mask arithmetic run unmodified on z3-backed duck arrays); per (row, col, disparity) z3 decides '
                               'cost == direct window sum of the measure and NaN <=> not computable (window leaves an image, nodata in a window, centre '
                               'masked, disparity outside the pixel interval); SAD, SSD, census; scalar intervals and per-pixel grids; band selection; '
-                              'column coordinates not starting at 0')
-    ctx.assumptions += ['C02: ZNCC values, sub-pixel shifted images (scipy zoom) and step != 1 are outside the harness']
+                              'column coordinates not starting at 0; sub-pixel precision 2 and 4 (no masks): cost at k + i/subpix == measure against the right image '
+                              'linearly interpolated between columns (scipy zoom order 1 = the linear map read off the real zoom on unit vectors)')
+    ctx.assumptions += ['C02: ZNCC values, masks combined with sub-pixel precision, subpix > 4 and step != 1 are outside the harness']
 
 
 def replay(body):
